@@ -217,8 +217,13 @@ Done ==
                      ELSE SelectSeq(pend, LAMBDA p : p.id # q.id)
           /\ UNCHANGED <<dur, fsn>>
         ELSE \* fsync
-          LET f == CHOOSE x \in fsn : x.id = q.id IN
-          /\ fsn' = fsn \ {f}
+          LET f == CHOOSE x \in fsn : x.id = q.id
+              \* an fsync that was issued earlier and is still in flight must
+              \* not bring back what this (later) one has just superseded
+              Older(x) == [x EXCEPT !.snap = [b \in (DOMAIN x.snap) \ (DOMAIN f.snap) |-> x.snap[b]]]
+          IN
+          /\ fsn' = IF ok THEN { IF x.id < f.id THEN Older(x) ELSE x : x \in fsn \ {f} }
+                     ELSE fsn \ {f}
           /\ IF ok
              THEN /\ dur' = [b \in DOMAIN dur |->
                                IF b \in DOMAIN f.snap THEN f.snap[b] ELSE dur[b]]
